@@ -5,7 +5,7 @@
     (threads), keys, writers, cancellations and any interleaving of their
     critical sections and wake-ups. *)
 From Coq Require Import List ZArith NArith Bool Arith Lia.
-From GL Require Import model.WaitLTS proofs.C07_Wait.
+From GL Require Import model.WaitLTS run.Run_C07 proofs.C07_Wait proofs.C07_Validator.
 Import ListNotations.
 
 (** [reachable s := exists ls, run init ls = Some s] *)
@@ -197,6 +197,42 @@ Print Assumptions C07_no_double_close.
 Example C07_ex_no_residue :
   option_map (fun s => (map t_pc (thr s), tbl s 0, dblclose s)) (run init C07_ex_trace) =
   Some ([PDone RCtx; PDone RNil; PDone RNil; PDone RNotExist], None, false).
+Proof. vm_compute. reflexivity. Qed.
+
+(** * what a passing correspondence check means *)
+
+(** a script step accepted by the validator ([run/Run_C07.v]) takes the model along
+    LTS labels to a state in which no call can move, whose parked calls are exactly
+    the calls the implementation had blocked in select, and in which no channel was
+    closed twice *)
+Theorem C07_check_step_sound : forall keys v x v',
+  check_step keys v x = Some v' ->
+  exists ls, v_trace v' = v_trace v ++ ls /\ run (v_st v) ls = Some (v_st v') /\
+             (forall t, enabled_of (v_st v') t = []) /\
+             parked_list (thr (v_st v')) 0 = o_parked (s_obs x) /\
+             dblclose (v_st v') = false.
+Proof. exact check_step_sound. Qed.
+Print Assumptions C07_check_step_sound.
+
+(** an accepted case is a trace of the LTS from [init]; its final state is reachable
+    and satisfies the invariant *)
+Theorem C07_validated_run_is_trace : forall keys steps v,
+  run_mem keys steps = Some v ->
+  run init (v_trace v) = Some (v_st v) /\ reachable (v_st v) /\ Inv (v_st v).
+Proof. exact run_mem_sound. Qed.
+Print Assumptions C07_validated_run_is_trace.
+
+(** an observed run (the first hand-checked case of the development) is accepted *)
+Example C07_ex_validated :
+  match run_mem [0; 1]
+    [mkStep (SMut (OPut 0 None) (MOk 1%N)) (mkObs [] [] [] [(0, 1%N)]);
+     mkStep (SStart 0 1%N false) (mkObs [] [0] [(0, (1%N, 1%Z))] [(0, 1%N)]);
+     mkStep (SStart 0 1%N false) (mkObs [] [0; 1] [(0, (1%N, 2%Z))] [(0, 1%N)]);
+     mkStep (SCancel 0) (mkObs [(0, RCtx)] [1] [(0, (1%N, 1%Z))] [(0, 1%N)]);
+     mkStep (SMut (ODelete 0) MDone) (mkObs [(1, RNotExist)] [] [] [])]
+  with Some v => v_trace v | None => [] end =
+  [Mut (OPut 0 None); Start 0 0 1%N; LCheck 0; Start 1 0 1%N; LCheck 1;
+   CtxDone 0; WakeCtx 0; CancelSec 0; Mut (ODelete 0); WakeChan 1; LCheck 1].
 Proof. vm_compute. reflexivity. Qed.
 
 (** * the Redis client (polling) *)
